@@ -89,6 +89,7 @@ def kernels():
     ks["elem_f64"] = (xo.Kernel(args=[A(xo.Float64, pointer=True, name="x"), A(xo.Int8, pointer=True, name="base")], ret=A(xo.Int64)), "int64_t elem_f64(double* x, int8_t* base){ return (int64_t)((char*)x-(char*)base); }")
     ks["elem_i32"] = (xo.Kernel(args=[A(xo.Int32, pointer=True, name="x"), A(xo.Int8, pointer=True, name="base")], ret=A(xo.Int64)), "int64_t elem_i32(int32_t* x, int8_t* base){ return (int64_t)((char*)x-(char*)base); }")
     ks["first_f64"] = (xo.Kernel(args=[A(xo.Float64, pointer=True, name="x"), A(xo.Int32, name="k")], ret=A(xo.Float64)), "double first_f64(double* x, int32_t k){ return x[k]; }")
+    ks["poke_f64"] = (xo.Kernel(args=[A(xo.Float64, pointer=True, name="x"), A(xo.Float64, name="v")]), "void poke_f64(double* x, double v){ x[0] = v; }")
     for s in SCALARS:
         ks["id_" + s] = (xo.Kernel(args=[A(getattr(xo, s), name="v")], ret=A(getattr(xo, s))), f"{CT[s]} id_{s}({CT[s]} v){{ return v; }}")
     ks["mix"] = (
@@ -206,7 +207,11 @@ def make_symcpu_ctx(env):
 
     class SymCpuCtx(symbuf.SymCtx, ContextCpu):
         def __init__(self, world, kind, name):
+            import weakref
+
             symbuf.SymCtx.__init__(self, world, kind, name)
+            self._buffers = weakref.WeakSet()  # what ContextCpu's own state protocol expects to find
+            self._kernels = {}
 
     return SymCpuCtx(env.world, env.kind, "cpu")
 
@@ -320,6 +325,22 @@ def _sc_c17(env, group, cfg, ty, vals):
                     env.check(out == 123, "C17 the declared return value comes back unchanged")
                 else:
                     env.check(int(out) == int(o._offset), f"C17 xobject argument {tag}: the kernel receives the address of the object's first byte (base + offset)")
+        # duplicates made by pickling (own buffer, own storage): the pointer is into the DUPLICATE's storage (M10-C07)
+        try:
+            dups = env.pickle_roundtrip([objs["KQ"], objs["KP"]])
+        except BaseException as ex:
+            if not isinstance(ex, Exception):
+                raise
+            dups = None
+            env.check(False, f"C17 pickling the argument objects raised {type(ex).__name__}: {str(ex)[:80]}")
+        for n, d in zip(("KQ", "KP"), dups or ()):
+            dbase = np.zeros(1, dtype="int8") if env.symbolic else np.frombuffer(d._buffer.buffer, dtype="int8")
+            out, args, _ = call.call("off_" + n, ret=321, obj=d, base=dbase)
+            if env.symbolic:
+                env.check(d._buffer is not objs[n]._buffer, f"C17 unpickled {n}: lives in a buffer of its own")
+                points_to(args[0], ty[n]._c_type, d._buffer, d._offset, f"C17 unpickled duplicate of {n} as argument")
+            else:
+                env.check(int(out) == int(d._offset), f"C17 unpickled duplicate of {n} as argument: the kernel receives the address of the duplicate's first byte (its own storage + offset)")
         out_arr = np.zeros(2, dtype="int64")
         _, args, _ = call.call("off2", p=objs["KP2"], out=out_arr, q=objs["KQ"], base=base())
         if env.symbolic:
@@ -355,6 +376,28 @@ def _sc_c17(env, group, cfg, ty, vals):
                     env.check(got == first and p.addr.off == 0, f"C17 NumPy {tag}: the pointer is to its first element")
             else:
                 env.check(float(out) == first, f"C17 NumPy {tag}: the kernel reads the first element through the pointer it received")
+        # arrays and views that are not C-contiguous: still a pointer to THEIR first element, not to a temporary copy (M10-C17)
+        m = np.arange(12.0).reshape(3, 4) + 0.5
+        mbase = m.reshape(-1).view("int8")
+        for arr, tag in ((m, "2-D array"), (m.T, "transposed view"), (m[:, 1:3], "block of columns"), (m[::-1], "rows in reverse"), (m[1:, ::2], "strided block"), (np.asfortranarray(m), "F-ordered array"), (m.T[1:], "slice of a transposed view")):
+            own = arr if np.shares_memory(arr, m) else None
+            want_addr = arr.__array_interface__["data"][0]
+            rbase = mbase if own is not None else arr.T.reshape(-1).view("int8")  # the F-ordered array owns its data
+            rbase_addr = rbase.__array_interface__["data"][0]
+            out, args, _ = call.call("elem_f64", ret=7, x=arr, base=rbase)
+            if env.symbolic:
+                p = args[0]
+                env.check(isinstance(p, Ptr) and p.ctype == "double*", f"C17 NumPy {tag}: a pointer to its element type is passed")
+                if isinstance(p, Ptr):
+                    host = p.addr.store[2] if isinstance(p.addr.store, tuple) else None
+                    got_addr = np.asarray(host).__array_interface__["data"][0] if host is not None else None
+                    env.check(got_addr == want_addr and p.addr.off == 0, f"C17 NumPy {tag}: the pointer is to the array's own first element (not to a copy)")
+            else:
+                env.check(int(out) == want_addr - rbase_addr, f"C17 NumPy {tag}: the kernel receives the address of the array's own first element")
+                before = float(arr[(0,) * arr.ndim])
+                call.call("poke_f64", x=arr, v=-99.25)
+                env.check(float(arr[(0,) * arr.ndim]) == -99.25, f"C17 NumPy {tag}: a write of the kernel through the pointer reaches the array")
+                arr[(0,) * arr.ndim] = before
         # wrong element type: refused
         expect_refused(env, lambda: call.call("first_f64", ret=0.0, x=np.array([1, 2, 3], dtype="int32"), k=0), "C17 a NumPy array of another element type is refused")
         expect_refused(env, lambda: call.call("first_f64", ret=0.0, x=np.array([1.0, 2.0], dtype="float32"), k=0), "C17 a NumPy float32 array is refused where double* is declared")
